@@ -271,6 +271,10 @@ func (w *World) SendPacket(p simnet.Packet) error {
 	var faults []WFault
 	if w.Net.Explicit {
 		faults = w.explicit[[2]int{dir, ord}]
+	} else if pinned := w.explicit[[2]int{dir, ord}]; len(pinned) > 0 {
+		// faults a generator pinned to a datagram on top of the random rates
+		faults = pinned
+		w.Fired = append(w.Fired, faults...)
 	} else if w.Net.FaultUntilMS == 0 || now/1e6 < w.Net.FaultUntilMS {
 		r := w.draw(1, dir, ord)
 		switch x := r.F(); {
